@@ -172,7 +172,7 @@ def run(ctx):
     res.append(rule_utf8(facts))
     from . import c19b
     res.extend([c19b.rule_sign(facts, cg), c19b.rule_copylen(facts, cg), c19b.rule_slice(facts, cg), c19b.rule_panic(facts, cg),
-                c19b.rule_bounds(facts, cg), c19b.rule_listsz(facts, cg), c19b.rule_dictidx(facts, cg)])
+                c19b.rule_bounds(facts, cg), c19b.rule_listsz(facts, cg), c19b.rule_dictidx(facts, cg), c19b.rule_stale(facts, cg)])
     return res
 
 
